@@ -12,7 +12,7 @@ func files(c Case) map[string]string {
 		out["page_fail.vuego"] = emitPage(failingVariant(c))
 	}
 	if len(c.Layout) > 0 {
-		out["layouts/base.vuego"] = emit(c.Layout, c.Compact, c.Short)
+		out["layouts/base.vuego"] = emit(c.Layout, c.Compact, c.Short, c.Spell)
 	}
 	for name, cp := range c.Comps {
 		var b strings.Builder
@@ -24,13 +24,13 @@ func files(c Case) map[string]string {
 			b.WriteString("---\n")
 		}
 		if cp.Wrap {
-			b.WriteString("<template>" + emit(cp.Nodes, c.Compact, c.Short))
+			b.WriteString("<template>" + emit(cp.Nodes, c.Compact, c.Short, c.Spell))
 			if !c.Compact {
 				b.WriteString("\n")
 			}
 			b.WriteString("</template>\n")
 		} else {
-			b.WriteString(emit(cp.Nodes, c.Compact, c.Short))
+			b.WriteString(emit(cp.Nodes, c.Compact, c.Short, c.Spell))
 		}
 		out[name] = b.String()
 	}
@@ -40,7 +40,7 @@ func files(c Case) map[string]string {
 // emitHand writes the page-level slot templates.
 func emitHand(c Case) string {
 	var b strings.Builder
-	w := &writer{b: &b, compact: c.Compact, short: c.Short, proc: c.Proc}
+	w := &writer{b: &b, compact: c.Compact, short: c.Short, proc: c.Proc, spell: c.Spell}
 	for _, s := range c.Hand {
 		w.nl(0)
 		w.supply(s, 0)
@@ -51,14 +51,14 @@ func emitHand(c Case) string {
 // emitPage writes the page file (the only file a registered NodeProcessor pre-processes).
 func emitPage(c Case) string {
 	var b strings.Builder
-	w := &writer{b: &b, compact: c.Compact, short: c.Short, proc: c.Proc}
+	w := &writer{b: &b, compact: c.Compact, short: c.Short, proc: c.Proc, spell: c.Spell}
 	w.nodes(c.Page, 0)
 	return b.String() + emitHand(c)
 }
 
 // supply writes one slot template; with proc as <x-slot name=".." [short] [bind=".."]>.
 func (w *writer) supply(s Supply, depth int) {
-	open, closeTag := "<template "+supAttr(s)+">", "</template>"
+	open, closeTag := "<"+w.up("template")+" "+w.supAttr(s)+">", "</"+w.up("template")+">"
 	if w.proc {
 		open = "<x-slot"
 		if s.Name != "" {
@@ -83,9 +83,9 @@ func (w *writer) supply(s Supply, depth int) {
 	w.b.WriteString(closeTag)
 }
 
-func emit(nodes []Node, compact, short bool) string {
+func emit(nodes []Node, compact, short bool, spell int) string {
 	var b strings.Builder
-	w := &writer{b: &b, compact: compact, short: short}
+	w := &writer{b: &b, compact: compact, short: short, spell: spell}
 	w.nodes(nodes, 0)
 	return b.String()
 }
@@ -95,6 +95,53 @@ type writer struct {
 	compact bool
 	short   bool
 	proc    bool // page written with <x-inc> / <x-slot>, rewritten by a registered NodeProcessor
+	spell   int  // equivalent spellings, see the spell* bits
+	// lastChild: the node being written is the last child of a plain element; inElement: the list
+	// being written is the child list of a plain element
+	lastChild, inElement bool
+}
+
+// Equivalent spellings of the same template (docs/syntax.md: ":attr is equivalent to v-bind:attr";
+// HTML: tag and attribute names are case-insensitive, attribute values may be quoted either way, and
+// an element that is the last child of its parent needs no end tag of its own).
+const (
+	spellSlotVBind = 1 << iota // <slot v-bind:item="x"> instead of :item
+	spellIncVBind              // <template include v-bind:title1="x"> instead of :title1
+	spellUpper                 // <SLOT NAME=..>, <TEMPLATE INCLUDE=..>, <TEMPLATE V-SLOT:a>, V-BIND:
+	spellSingle                // attribute values in single quotes (where the value has none itself)
+	spellSlotOpen              // <slot/> for a slot without fallback that is the last child of its parent
+	spellAll       = 1<<iota - 1
+)
+
+// attr writes one attribute.
+func (w *writer) attr(key, val string) {
+	q := `"`
+	if w.spell&spellSingle != 0 && !strings.Contains(val, "'") {
+		q = "'"
+	}
+	w.b.WriteString(" " + key + "=" + q + val + q)
+}
+
+func (w *writer) up(s string) string {
+	if w.spell&spellUpper != 0 {
+		return strings.ToUpper(s)
+	}
+	return s
+}
+
+func (w *writer) bindKey(vbind bool, name string) string {
+	if vbind {
+		return w.up("v-bind:") + name
+	}
+	return ":" + name
+}
+
+func (w *writer) forAttr(f *For) {
+	if f.Idx != "" {
+		w.attr("v-for", fmt.Sprintf("(%s, %s) in %s", f.Idx, f.Item, f.List))
+	} else {
+		w.attr("v-for", fmt.Sprintf("%s in %s", f.Item, f.List))
+	}
 }
 
 // shortTag is the documented mapping: components/KOne.vuego -> <k-one>.
@@ -121,9 +168,13 @@ func (w *writer) nl(depth int) {
 }
 
 func (w *writer) nodes(l []Node, depth int) {
-	for _, n := range l {
+	outer, outerIn := w.lastChild, w.inElement
+	for i, n := range l {
+		// last child of an element written with an explicit end tag (not of a file / <template>)
+		w.lastChild = outerIn && i == len(l)-1
 		w.node(n, depth)
 	}
+	w.lastChild, w.inElement = outer, outerIn
 }
 
 func (w *writer) node(n Node, depth int) {
@@ -152,22 +203,21 @@ func (w *writer) node(n Node, depth int) {
 		}
 	case "el":
 		w.nl(depth)
-		fmt.Fprintf(w.b, `<%s data-m="%s"`, n.Tag, n.M)
+		w.b.WriteString("<" + n.Tag)
+		w.attr("data-m", n.M)
 		if n.If != "" {
-			fmt.Fprintf(w.b, ` v-if="%s"`, n.If)
+			w.attr("v-if", n.If)
 		}
 		if n.For != nil {
-			if n.For.Idx != "" {
-				fmt.Fprintf(w.b, ` v-for="(%s, %s) in %s"`, n.For.Idx, n.For.Item, n.For.List)
-			} else {
-				fmt.Fprintf(w.b, ` v-for="%s in %s"`, n.For.Item, n.For.List)
-			}
+			w.forAttr(n.For)
 		}
 		for _, kv := range n.Bind {
-			fmt.Fprintf(w.b, ` :data-%s="%s"`, kv.K, kv.V)
+			w.attr(":data-"+kv.K, kv.V)
 		}
 		w.b.WriteString(">")
+		w.inElement = true
 		w.nodes(n.Kids, depth+1)
+		w.inElement = false
 		if len(n.Kids) > 0 {
 			w.nl(depth)
 		}
@@ -177,47 +227,51 @@ func (w *writer) node(n Node, depth int) {
 		fmt.Fprintf(w.b, `<%s data-m="%s" v-html="content"></%s>`, n.Tag, n.M, n.Tag)
 	case "slot":
 		w.nl(depth)
-		w.b.WriteString("<slot")
+		w.b.WriteString("<" + w.up("slot"))
 		if n.Name != "" {
-			fmt.Fprintf(w.b, ` name="%s"`, n.Name)
+			w.attr(w.up("name"), n.Name)
 		}
 		if n.For != nil {
-			if n.For.Idx != "" {
-				fmt.Fprintf(w.b, ` v-for="(%s, %s) in %s"`, n.For.Idx, n.For.Item, n.For.List)
-			} else {
-				fmt.Fprintf(w.b, ` v-for="%s in %s"`, n.For.Item, n.For.List)
-			}
+			w.forAttr(n.For)
 		}
 		for _, kv := range n.Bind {
+			key := w.bindKey(w.spell&spellSlotVBind != 0, kv.K)
 			if kv.Lit {
-				fmt.Fprintf(w.b, ` :%s="'%s'"`, kv.K, kv.V)
+				w.attr(key, "'"+kv.V+"'")
 			} else {
-				fmt.Fprintf(w.b, ` :%s="%s"`, kv.K, kv.V)
+				w.attr(key, kv.V)
 			}
+		}
+		if w.spell&spellSlotOpen != 0 && len(n.Kids) == 0 && w.lastChild {
+			// the parent's end tag closes the slot element
+			w.b.WriteString("/>")
+			return
 		}
 		w.b.WriteString(">")
 		w.nodes(n.Kids, depth+1)
 		if len(n.Kids) > 0 {
 			w.nl(depth)
 		}
-		w.b.WriteString("</slot>")
+		w.b.WriteString("</" + w.up("slot") + ">")
 	case "inc":
 		w.nl(depth)
-		closeTag := "</template>"
+		closeTag := "</" + w.up("template") + ">"
 		if w.proc {
-			fmt.Fprintf(w.b, `<x-inc src="%s"`, n.Comp)
+			w.b.WriteString("<x-inc")
+			w.attr("src", n.Comp)
 			closeTag = "</x-inc>"
 		} else if w.short {
 			fmt.Fprintf(w.b, `<%s`, shortTag(n.Comp))
 			closeTag = "</" + shortTag(n.Comp) + ">"
 		} else {
-			fmt.Fprintf(w.b, `<template include="%s"`, n.Comp)
+			w.b.WriteString("<" + w.up("template"))
+			w.attr(w.up("include"), n.Comp)
 		}
 		for _, kv := range n.Stat {
-			fmt.Fprintf(w.b, ` %s="%s"`, kv.K, kv.V)
+			w.attr(kv.K, kv.V)
 		}
 		for _, kv := range n.Bind {
-			fmt.Fprintf(w.b, ` :%s="%s"`, kv.K, kv.V)
+			w.attr(w.bindKey(w.spell&spellIncVBind != 0, kv.K), kv.V)
 		}
 		w.b.WriteString(">")
 		for _, s := range n.Sup {
@@ -235,23 +289,27 @@ func (w *writer) node(n Node, depth int) {
 }
 
 // supAttr writes the slot directive of a supply template.
-func supAttr(s Supply) string {
+func (w *writer) supAttr(s Supply) string {
 	var key string
 	switch s.Form {
 	case "long":
-		key = "v-slot:" + s.Name
+		key = w.up("v-slot:") + s.Name
 	case "short":
 		key = "#" + s.Name
 	case "bare":
-		key = "v-slot"
+		key = w.up("v-slot")
 	default:
 		panic("c06: unknown supply form " + s.Form)
 	}
+	q := `"`
+	if w.spell&spellSingle != 0 {
+		q = "'"
+	}
 	switch {
 	case s.Var != "":
-		return fmt.Sprintf(`%s="%s"`, key, s.Var)
+		return key + "=" + q + s.Var + q
 	case len(s.Destr) > 0:
-		return fmt.Sprintf(`%s="%s"`, key, pattern(s.Destr, s.WS))
+		return key + "=" + q + pattern(s.Destr, s.WS) + q
 	}
 	return key
 }
